@@ -247,137 +247,152 @@ def r3_field_ranges(chk, F):
 
 
 def r6_time_of_day_flow(chk, F):
-    """Operand flow of the time of day through compute_gregorian: the fields decompose() hands out keep their roles.
-    Before the reference date the time is rebuilt as 24 h - compose(0, 0, h, min, s, ms, us, ns) of the *same* decomposition,
-    argument k from output k; the sub-second fields of whichever decomposition is returned are recombined with weights
-    ns + 10^3 us + 10^6 ms, hours/minutes/seconds are its outputs 2, 3, 4."""
+    """Flow of the time of day through compute_gregorian, decided on the interpreted paths (helpers inlined; decompose / compose /
+    div_rem_f64 / is_leap_year uninterpreted and recorded, loops abstracted): the fields decompose() hands out keep their roles.
+    Wherever the time is rebuilt with Duration::compose, it is compose(0, 0, h, min, s, ms, us, ns) of ONE decomposition, argument
+    k from output k, and that decomposition is of the value whose decomposition gives the day count; the sub-second fields of the
+    decomposition that is returned are recombined with weights ns + 10^3 us + 10^6 ms, hours/minutes/seconds are its outputs
+    2, 3, 4."""
+    from .c09_year import make as _make
+    from ..havoc import Havoc
+    from .c05 import fix_enum
+    from ..epochalg import EpochAlg
     rule = "C09.R6"
+    inst = "Epoch::compute_gregorian"
+    eng, D = _make(F)
     cg = F.find1(self_ty="Epoch", name="compute_gregorian", trait="")
-    defs = cfg.unique_defs(cg)
-    decs = {}
-    comps = []
-    for bi, t in cfg.calls(cg):
-        nm = cfg.callee_name(t["f"])
-        if nm.endswith("Duration::decompose"):
-            decs[t["dest"]["l"]] = (bi, t)
-        elif nm.endswith("Duration::compose"):
-            comps.append((bi, t))
-    chk.info("compute_gregorian: %d decompose call(s), %d compose call(s)" % (len(decs), len(comps)))
-    if len(comps) != 1:
-        # another way of rebuilding the time of day: the role-preservation rule below has nothing to say about it
-        chk.info("C09.R6 recomposition rule not applicable (no single Duration::compose call in compute_gregorian)")
-        return
-    bi, t = comps[0]
-    rs = [cfg.resolve(cg, a, defs) for a in t["args"]]
-    ok = len(rs) == 8 and all(r[0] == "const" and r[1]["v"] == 0 for r in rs[:2])
-    src = set()
-    for k in range(2, 8):
-        r = rs[k] if k < len(rs) else ("?",)
-        good = r[0] == "place" and r[1]["l"] in decs and len(r[1]["pj"]) == 1 and r[1]["pj"][0].get("f") == k
-        ok = ok and good
-        if r[0] == "place":
-            src.add(r[1]["l"])
-    ok = ok and len(src) == 1
-    chk.ob(rule, "Epoch::compute_gregorian", "compose(0,0,d.2,d.3,d.4,d.5,d.6,d.7)-of-one-decomposition", ok, "E5 operand flow (argument k = output k)",
-           detail=None if ok else [repr(r)[:120] for r in rs])
-    # the decomposition that is recomposed is that of the value being decomposed in the other branch too (duration_wrt_ref)
-    if src:
-        first = decs[next(iter(src))][1]
-        others = [tt for l, (b2, tt) in decs.items() if l not in src]
-        a0 = cfg.resolve(cg, first["args"][0], defs)
-        same = [tt for tt in others if repr(cfg.resolve(cg, tt["args"][0], defs)) == repr(a0)]
-        chk.ob(rule, "Epoch::compute_gregorian", "recomposed-decomposition-is-of-duration_wrt_ref", len(same) == 1, "E5 operand flow",
-               detail=None if len(same) == 1 else {"arg": repr(a0)[:200]})
-    # returned tuple: fields 3,4,5 are casts of outputs 2,3,4 and field 6 is ns + us*10^3 + ms*10^6 of one decomposition (phi of the branches)
-    aggs = [s for b2, si, s in cfg.stmts(cg) if s["k"] == "a" and s["p"]["l"] == 0 and not s["p"]["pj"] and s["r"]["op"] == "agg" and s["r"]["ak"] == "tuple"]
-    if len(aggs) != 1:
-        return
-    alld = _all_defs(cg)
+    dec = F.find1(self_ty="Duration", name="decompose", trait="")
+    comp = F.find1(self_ty="Duration", name="compose", trait="")
+    drf = F.free_fn("epoch::div_rem_f64")
+    ily = F.free_fn("gregorian::is_leap_year")
+    A = EpochAlg(F, eng, D)
+    hv = Havoc(eng, [])
+    A.install(duration_algebra=True, opaque_conv=True)
+    hv.install()
+    eng.int_floats = False
 
-    def sources(o, depth=0):
-        """set of (decompose dest local, field) an operand may carry (through the branch-merging tuple and copies)"""
-        p = cfg.operand_place(o)
-        if p is None or depth > 12:
-            return {("?", repr(o)[:40])}
-        out = set()
-        if p["pj"]:
-            if p["l"] in decs and len(p["pj"]) == 1 and "f" in p["pj"][0]:
-                return {(p["l"], p["pj"][0]["f"])}
-            # field i of a local tuple built by aggregates in the branches
-            if len(p["pj"]) == 1 and "f" in p["pj"][0]:
-                for r in alld.get(p["l"], []):
-                    if r["op"] == "agg" and r["ak"] == "tuple":
-                        out |= sources(r["xs"][p["pj"][0]["f"]], depth + 1)
-                    else:
-                        out.add(("?", r["op"]))
-                return out or {("?", "no-def")}
-            return {("?", "proj")}
-        for r in alld.get(p["l"], []):
-            if r["op"] == "use":
-                out |= sources(r["x"], depth + 1)
-            elif r["op"] == "cast" and r["ck"] == "IntToInt":
-                out |= sources(r["x"], depth + 1)
-            else:
-                out.add(("?", r["op"]))
-        return out or {("?", "no-def")}
-    xs = aggs[0]["r"]["xs"]
-    for i, want in ((3, 2), (4, 3), (5, 4)):
-        got = sources(xs[i])
-        ok = bool(got) and all(g[0] in decs and g[1] == want for g in got)
-        chk.ob(rule, "Epoch::compute_gregorian", "field%d=decompose-output-%d" % (i, want), ok, "E5 operand flow through the branch merge",
-               detail=None if ok else sorted(map(repr, got)))
-    # nanoseconds: (nanos + microseconds * 1_000 + milliseconds * 1_000_000) as u32
-    def linear(o, depth=0):
-        """{field: weight} of a sum of products of decompose outputs with constants, or None"""
-        p = cfg.operand_place(o)
-        k = cfg.operand_const(o)
-        if k is not None:
-            return {"const": k["v"]}
-        if p is None or depth > 14:
-            return None
-        if len(p["pj"]) == 1 and p["pj"][0].get("f") == 0 and p["l"] not in decs and any(r["op"] == "bin" and r["b"].endswith("WithOverflow") for r in alld.get(p["l"], [])):
-            # (value, overflowed) pair of a checked operation: the value
-            p = {"l": p["l"], "pj": []}
-        rs2 = alld.get(p["l"], []) if not p["pj"] else []
-        if p["pj"] or not rs2:
-            got = sources(o)
-            if all(g[0] in decs for g in got) and len({g[1] for g in got}) == 1:
-                return {next(iter(got))[1]: 1}
-            return None
-        res = None
-        for r in rs2:
-            cur = None
-            if r["op"] in ("use",) or (r["op"] == "cast" and r["ck"] == "IntToInt"):
-                cur = linear(r["x"], depth + 1)
-            elif r["op"] == "bin" and r["b"] in ("Add", "AddWithOverflow"):
-                a, b = linear(r["l"], depth + 1), linear(r["r"], depth + 1)
-                if a is not None and b is not None:
-                    cur = dict(a)
-                    for kk, vv in b.items():
-                        cur[kk] = cur.get(kk, 0) + vv
-            elif r["op"] == "bin" and r["b"] in ("Mul", "MulWithOverflow"):
-                a, b = linear(r["l"], depth + 1), linear(r["r"], depth + 1)
-                if a is not None and b is not None:
-                    if set(a) == {"const"}:
-                        cur = {kk: vv * a["const"] for kk, vv in b.items()}
-                    elif set(b) == {"const"}:
-                        cur = {kk: vv * b["const"] for kk, vv in a.items()}
-            elif r["op"] == "use" or (r["op"] == "field"):
-                cur = None
-            else:
-                got = sources(o)
-                if all(g[0] in decs for g in got) and len({g[1] for g in got}) == 1:
-                    cur = {next(iter(got))[1]: 1}
-            if cur is None:
-                return None
-            if res is not None and res != cur:
-                return None
-            res = cur
-        return res
-    lin = linear(xs[6])
-    want = {7: 1, 6: 1000, 5: 1000000}
-    chk.ob(rule, "Epoch::compute_gregorian", "nanoseconds=out7+10^3*out6+10^6*out5", lin == want, "linear form over decompose outputs (E1, structural)",
-           detail=None if lin == want else {"got": lin})
+    def h_dec(e, st, c, a, dest_tid, t):
+        d0 = e.deref(st, a[0]) if isinstance(a[0], Ref) else a[0]
+        T0 = D.total(d0)
+        if T0 is not None and T0.is_const():
+            if any((fr_.fn.get("name") or "") == "gregorian_epoch_offset" for fr_ in st.frames):
+                return NotImplemented  # decompose of a constant inside gregorian_epoch_offset: evaluated for real, not part of the flow
+            # a decomposition of a constant on this path (24 h - time when time == 0): evaluated for real, and recorded
+            returned, ended = e.subcall(st, dec, list(a))
+            out = [(s2, None) for s2 in ended]
+            for s2, v in returned:
+                s2.trace.append(("rec", "decompose", [d0], v))
+                out.append((s2, v))
+            return out
+        n = len(recs(st, "decompose"))
+        v = e.fresh(dest_tid, ("decompose", n, tuple(e.term(x) for x in a)))
+        # the ranges decompose guarantees for its outputs (C11.R1): they make the `as u8` / `as u32` casts of the fields lossless
+        cons = []
+        for i_, lim in enumerate([None, None, 23, 59, 59, 999, 999, 999]):
+            if lim is not None and isinstance(v.fs[i_], Int):
+                cons += [(v.fs[i_].lin - lim, "<="), (-v.fs[i_].lin, "<=")]
+        e.add_cons(st, cons)
+        st.trace.append(("rec", "decompose", [d0], v))
+        return [(st, v)]
+    eng.hooks_by_id[dec["id"]] = h_dec
+    eng.hooks_by_id[comp["id"]] = rec_hook(D, "compose")
+    eng.hooks_by_id[drf["id"]] = rec_hook(D, "div_rem")
+    eng.hooks_by_id[ily["id"]] = rec_hook(D, "leap")
+    # the leap-day loops over the years in between cannot touch the time of day (C09.R7's loop summaries establish that their bodies
+    # write one day accumulator and nothing else): they are skipped here; the table search is left uninterpreted
+    from .c09_year import RANGE_NEXT, BSEARCH
+    eng.hooks[RANGE_NEXT] = lambda e, st, c, a, dest_tid, t: [(st, e.mk_option(dest_tid, None))]
+    saved_bs = eng.models.get(BSEARCH)
+    eng.models[BSEARCH] = rec_hook(D, "bsearch")
+    eng.max_paths = 20000
+
+    def setup(st, args):
+        fix_enum(eng, st, args[1], "TAI")
+        return [st]
+    eng.max_block_visits = 3
+    try:
+        finals, args = D.run(cg, extra=setup, interior=True)
+    finally:
+        eng.max_block_visits = None
+        hv.uninstall()
+        A.uninstall()
+        eng.hooks_by_id = {}
+        eng.hooks.pop(RANGE_NEXT, None)
+        if saved_bs is not None:
+            eng.models[BSEARCH] = saved_bs
+        else:
+            eng.models.pop(BSEARCH, None)
+    nret = ncomp = 0
+    agg = {}
+    import os as _os
+    if _os.environ.get("HV_DEBUG_R6"):
+        import collections as _c
+        print(_c.Counter((st.end, len(recs(st, "compose")), len(recs(st, "decompose"))) for st in finals))
+        print(_c.Counter((len(recs(st, "compose")), len(recs(st, "decompose")), repr(st.ret.fs[3])[:30]) for st in finals if st.end == "return"))
+        for st in finals:
+            if st.end not in ("return",) and len(recs(st, "compose")) == 0:
+                print(st.end, [e["msg"][:100] for e in st.events][-2:], st.frames[-1].fn["path"], st.frames[-1].bb)
+                break
+
+    def note(construct, ok, detail=None):
+        a = agg.setdefault(construct, [0, 0, None])
+        a[0] += 1
+        if ok:
+            a[1] += 1
+        elif a[2] is None:
+            a[2] = detail
+
+    def same_val(x, y):
+        return x is y or (isinstance(x, Int) and isinstance(y, Int) and x.lin.key() == y.lin.key())
+
+    def same_dur(x, y):
+        tx, ty = D.total(x), D.total(y)
+        return x is y or (tx is not None and ty is not None and tx.key() == ty.key())
+    for st in finals:
+        if st.end != "return" or not (isinstance(st.ret, Struct) and len(st.ret.fs) == 7):
+            continue
+        decs = recs(st, "decompose")
+        comps = recs(st, "compose")
+        if not decs:
+            continue
+        nret += 1
+        for a, res in comps:
+            ncomp += 1
+            ok0 = len(a) == 8 and all(isinstance(x, Int) and x.lin.is_const() and x.lin.k == 0 for x in a[:2])
+            srcs = [i for i, (da, dv) in enumerate(decs) if isinstance(dv, Struct) and all(same_val(a[k], dv.fs[k]) for k in range(2, 8))]
+            ok = ok0 and len(srcs) >= 1
+            note("compose(0,0,d.2,d.3,d.4,d.5,d.6,d.7)-of-one-decomposition", ok,
+                 None if ok else {"compose_args": [repr(x)[:60] for x in a], "decompositions": [repr(dv)[:160] for da, dv in decs]})
+            if ok:
+                ok2 = same_dur(decs[srcs[0]][0][0], decs[0][0][0])
+                note("recomposed-decomposition-is-of-the-value-that-gives-the-day-count", ok2,
+                     None if ok2 else {"recomposed": repr(decs[srcs[0]][0][0])[:160], "first": repr(decs[0][0][0])[:160]})
+        # the decomposition whose hours/minutes/seconds are returned
+        r = st.ret
+        cand = [dv for da, dv in decs if isinstance(dv, Struct) and all(isinstance(r.fs[i], Int) and _cast_of(r.fs[i], dv.fs[w]) for i, w in ((3, 2), (4, 3), (5, 4)))]
+        note("hours,minutes,seconds=outputs-2,3,4-of-one-decomposition", bool(cand),
+             None if cand else {"ret": [repr(x)[:80] for x in r.fs[3:6]], "decompositions": [(repr(da[0])[:100], repr(dv)[:200]) for da, dv in decs]})
+        if cand:
+            dv = cand[-1]
+            want = dv.fs[7].lin + dv.fs[6].lin.scale(1000) + dv.fs[5].lin.scale(10 ** 6)
+            got = r.fs[6].lin if isinstance(r.fs[6], Int) else None
+            okn = got is not None and (got.key() == want.key() or _wrapped_cast_of(eng, st, r.fs[6], want))
+            note("nanoseconds=ns+10^3*us+10^6*ms-of-that-decomposition", okn, None if okn else {"got": repr(got)[:200], "want": repr(want)[:200]})
+    for construct, (tot, okc, det) in sorted(agg.items()):
+        chk.ob(rule, inst, construct, tot == okc, "operand flow on the interpreted paths (%d path instances)" % tot, detail=det)
+    chk.floor(rule, "return paths of compute_gregorian with a decomposition", nret, 2)
+    chk.floor(rule, "recompositions of the time of day examined", ncomp, 1)
+
+
+def _cast_of(v, src):
+    """v is src or an integer cast of it that kept the value (same linear form)"""
+    return isinstance(v, Int) and isinstance(src, Int) and v.lin.key() == src.lin.key()
+
+
+def _wrapped_cast_of(eng, st, v, want):
+    """the u64 -> u32 cast of the sum: the engine keeps the linear form when it fits the target type under the path condition"""
+    from ..lin import implies
+    return isinstance(v, Int) and implies(st.cons, v.lin - want, "==", st.bnd)
 
 
 def _all_defs(fn):
